@@ -249,10 +249,10 @@ func (s *Storer) GetReader(offset int64, verifyCrc bool) (*Reader, error) {
 	s.mux.RLock()
 	defer s.mux.RUnlock()
 
-	s.dataSetMux.Lock()
-	defer s.dataSetMux.Unlock()
-
-	ds := s.dataSet
+	// do not hold dataSetMux while opening the reader: with verifyCrc the reader
+	// asks the storer (hasWriter -> getDataSet) and would block on it for ever;
+	// s.mux (held above) already keeps writers, resets and the collector out
+	ds := s.getDataSet()
 	if !ds.InRange(offset) {
 		return nil, os.ErrNotExist
 	}
